@@ -245,6 +245,45 @@ def removed_and_assigned(ns, fam, rng, buffered):
         x["copy"]["own"] = 1
         if "own" in x()["src"]:
             viol.append("writing through the copy changed the source")
+        # live children of the SAME collection as arguments of the in-place merges (update / reset):
+        # the argument is a value - what is stored is what the children held when the call was made,
+        # each position an independent copy (a built-in dict / list is the reference)
+        x["p"] = {"a": 1}
+        x["q"] = {"b": [2]}
+        x.update({"p": x["q"], "q": x["p"]})
+        if x()["p"] != {"b": [2]} or x()["q"] != {"a": 1}:
+            viol.append("x.update({'p': x['q'], 'q': x['p']}) stored %r / %r" % (x()["p"], x()["q"]))
+        x["q"]["late"] = 1
+        if "late" in x()["p"]:
+            viol.append("after update(p=x['q']) the two positions are one object")
+        x.update(dup=x["p"])
+        x.update(dup=x["q"])          # existing slot, other live child
+        x["q"]["late2"] = 1
+        if "late2" in x()["dup"]:
+            viol.append("update into an existing key stored the live child itself")
+        before = x()
+        x.reset({**{k: x[k] for k in ("p", "q")}, "r": [x["q"], x["q"]], "p2": x["p"]})
+        now = x()
+        want = {"p": before["p"], "q": before["q"], "r": [before["q"], before["q"]], "p2": before["p"]}
+        if now != want:
+            viol.append("reset with live children stored %r, expected %r" % (now, want))
+        x["r"][0]["m"] = 1
+        if "m" in x()["r"][1] or "m" in x()["q"]:
+            viol.append("reset([.., child, child]) stored one object at several positions")
+        lst2 = x["d"] if "d" in x else None
+        x["lst"] = [{"a": 1}, {"b": 2}, [3]]
+        lst2 = x["lst"]
+        lst2.reset([lst2[1], lst2[0], lst2[1]])
+        if lst2() != [{"b": 2}, {"a": 1}, {"b": 2}]:
+            viol.append("lst.reset([lst[1], lst[0], lst[1]]) stored %r" % (lst2(),))
+        lst2[0]["z"] = 1
+        if "z" in lst2()[2]:
+            viol.append("lst.reset([c, .., c]) stored one object at two positions")
+        popped = lst2.pop(1)
+        lst2.reset([popped, popped])
+        popped["w"] = 1
+        if any("w" in e for e in lst2()):
+            viol.append("a popped value given to reset stays connected to the list")
         if ctx is not None:
             cls._buffer_context.__exit__(None, None, None)
         for r, o in ((0, x), (1, y)):
